@@ -330,8 +330,14 @@ func (nfc *NfcSession) ReadFile(fileId uint16) (fileData []byte, err error) {
 			return nil, fmt.Errorf("[ReadFile] TLV length exceeds permitted maximum (len:%1d, max:%1d)", tmpTlvLength, nfc.readFileMaxTlvLength)
 		}
 
+		// indefinite length cannot be used to determine the file size
+		if tmpTlvLength < 0 {
+			return nil, fmt.Errorf("[ReadFile] indefinite TLV length not supported")
+		}
+
+		// NB the chip may have returned fewer than the 4 requested bytes
 		totalBytes = int(tmpTlvLength)
-		totalBytes += 4 - tmpBuf.Len()
+		totalBytes += len(fileHeader) - tmpBuf.Len()
 	}
 
 	// read remainder of file
@@ -390,6 +396,9 @@ func (nfc *NfcSession) ReadFile(fileId uint16) (fileData []byte, err error) {
 		if len(fileData) != totalBytes {
 			return nil, fmt.Errorf("[ReadFile] Data read differs to expected length (exp:%d, act:%d)", totalBytes, len(fileData))
 		}
+	} else {
+		// the whole object arrived with the header read (file of 4 bytes or less)
+		fileData = bytes.Clone(fileBuf.Bytes()[:totalBytes])
 	}
 
 	slog.Debug("ReadFile", "fileId", fileId, "data", utils.BytesToHex(fileData))
